@@ -51,6 +51,15 @@ def rule_l1(ctx: Ctx, m: SharedModel) -> None:
 
 def rule_l2(ctx: Ctx, m: SharedModel) -> None:
     repo = ctx.repo
+    for fi, w, nm, fresh in m.dynamic_lock_exprs:
+        if fresh:
+            ctx.violation("C07-L2", fi, w, f"`with {nm}` may hold a lock object created in this very call (check-then-create on a table that is itself filled without synchronisation): two threads can hold two different locks for the same cache, so the region excludes nobody")
+        else:
+            raise AnalysisError(f"{fi.where}: `with {nm}` uses a lock looked up at run time; whether all threads obtain the same object is not decided")
+    if m.lock_name is None:
+        if not m.dynamic_lock_exprs:
+            ctx.violation("C07-L2", m.cls.where, m.cls.node, f"{m.cname} has no class/module-level lock bound once; the shared level cache is unprotected", file=m.cls.module.relpath)
+        return
     # bound exactly once
     rebinds = []
     for fi in repo.all_funcs():
@@ -71,6 +80,8 @@ def rule_l2(ctx: Ctx, m: SharedModel) -> None:
 
 
 def rule_l3(ctx: Ctx, m: SharedModel) -> None:
+    if m.lock_name is None:
+        return
     if m.lock_kind == "RLock":
         ctx.ok("C07-L3", m.cls.where, "re-entrant lock: re-entry cannot deadlock")
         return
@@ -305,6 +316,7 @@ def _variants():
         V("lock-narrowed-empty", replace_stmt(PS, "Av._get_level", "with Av._CACHE_LOCK: ...", "with Av._CACHE_LOCK:\n    pass\nself._ensure_level(level_number)"), "fire", "C07-L1"),
         V("ensure-from-public-method", insert_stmt(PS, "Av.count", "return len(self._get_level(length))", "self._ensure_level(length)", "before"), "fire", "C07-L1"),
         V("fresh-lock-each-time", replace_expr(PS, "Av._get_level", "Av._CACHE_LOCK", "multiprocessing.Lock()"), "fire", "C07-L"),
+        V("per-basis-lock-table-lazy", [replace_stmt(PS, "Av", "_CACHE_LOCK = multiprocessing.Lock()", "_CACHE_LOCKS: ClassVar[dict] = {}"), replace_stmt(PS, "Av._get_level", "with Av._CACHE_LOCK: ...", "lock = Av._CACHE_LOCKS.get(self.basis)\nif lock is None:\n    lock = Av._CACHE_LOCKS[self.basis] = multiprocessing.Lock()\nwith lock:\n    self._ensure_level(level_number)")], "fire", "C07-L2"),
         V("lock-rebound", insert_stmt(PS, "Av.clear_cache", "cls._CLASS_CACHE = {}", "cls._CACHE_LOCK = multiprocessing.Lock()", "after"), "fire", "C07-L2"),
         V("reentry-count-under-lock", insert_stmt(PS, "Av._ensure_level", "start = max(0, len(self.cache) - 2)", "self.count(0)", "after"), "fire", "C07-L3"),
         V("reentry-in-self", insert_stmt(PS, "Av._ensure_level_mesh_pattern_basis", "self.cache.extend(({p: None for p in Perm.of_length(i) if p.avoids(*self.basis)} for i in range(len(self.cache), level_number + 1)))", "assert Perm() in self", "before"), "fire", "C07-L3"),
